@@ -177,7 +177,7 @@ def icosahedron(center : Vec = Vec(0,0,0), radius: float=1., uv=False):
     phi = (1 + sqrt(5)) / 2
     m = RawMeshData()
 
-    m.vertices += [ radius*a+center for a in 
+    m.vertices += [ radius*Vec.normalized(a)+center for a in 
     [
         Vec(-1, phi,0),
         Vec(1, phi, 0),
